@@ -1,7 +1,7 @@
 ------------------------------ MODULE QuerySem ------------------------------
 (* Executable reference semantics of the shared read-query core (C08; reused by C09 / C10 / C11):
    path patterns with labels, edge types and directions; Kleene three-valued WHERE; projections;
-   DISTINCT; count / sum / min / max with implicit grouping; ORDER BY with SKIP / LIMIT.
+   DISTINCT; count / sum / min / max with implicit grouping; ORDER BY with SKIP / LIMIT; one OPTIONAL MATCH.
    A query is "enumerate all bindings of the pattern in the graph, apply the clauses in order".
    The module is language neutral: the harness renders one abstract query into GQL, Cypher, ... and
    logs [g: graph, q: abstract query, rows: what the engine returned]; TLC evaluates Expected(g, q)
@@ -46,8 +46,9 @@ RECURSIVE Eval(_, _, _)
 Eval(g, bnd, e) ==
   CASE e.op = "const" -> e.v
     [] e.op = "prop" -> LET x == bnd[e.var] IN
-                        IF x.k = "n" THEN PropOf(NodeOf(g, x.id).props, e.key) ELSE PropOf(EdgeOf(g, x.id).props, e.key)
-    [] e.op = "id" -> IntV(bnd[e.var].id)
+                        IF x.k = "null" THEN NullV            \* variable of an OPTIONAL MATCH that found nothing
+                        ELSE IF x.k = "n" THEN PropOf(NodeOf(g, x.id).props, e.key) ELSE PropOf(EdgeOf(g, x.id).props, e.key)
+    [] e.op = "id" -> IF bnd[e.var].k = "null" THEN NullV ELSE IntV(bnd[e.var].id)
     [] e.op = "cmp" -> Cmp(e.f, Eval(g, bnd, e.a), Eval(g, bnd, e.b))
     [] e.op = "and" -> And3(Eval(g, bnd, e.a), Eval(g, bnd, e.b))
     [] e.op = "or" -> Or3(Eval(g, bnd, e.a), Eval(g, bnd, e.b))
@@ -85,7 +86,18 @@ Matches(g, path) ==
   IN {m.b : m \in MatchFrom(g, path, 2, S0)}
 
 \* ---------------------------------------------------------------- clauses
-Passing(g, q) == {b \in Matches(g, q.path) : IsTrue(Eval(g, b, q.where))}
+\* OPTIONAL MATCH (q.optfrom)-[..]-(..): q.opt is an edge pattern / node pattern sequence continuing from a variable
+\* of the main path.  Every binding of the main pattern that passes WHERE (which mentions main variables only) is
+\* extended by all matches of the optional part, or once with its variables unbound when there is none.
+HasOpt(q) == "opt" \in DOMAIN q
+NoB == [k |-> "null", id |-> 0]
+OptExt(g, q, b) ==
+  LET full == <<[var |-> q.optfrom, labels |-> <<>>]>> \o q.opt
+      E == {m.b : m \in MatchFrom(g, full, 2, {[b |-> b, cur |-> b[q.optfrom].id]})}
+      vars == {q.opt[i].var : i \in DOMAIN q.opt}
+  IN IF E = {} THEN {[x \in DOMAIN b \cup vars |-> IF x \in DOMAIN b THEN b[x] ELSE NoB]} ELSE E
+Passing(g, q) == LET P0 == {b \in Matches(g, q.path) : IsTrue(Eval(g, b, q.where))} IN
+                 IF HasOpt(q) THEN UNION {OptExt(g, q, b) : b \in P0} ELSE P0
 IsAgg(it) == "agg" \in DOMAIN it
 HasAgg(q) == \E i \in DOMAIN q.ret : IsAgg(q.ret[i])
 \* bags as functions row -> multiplicity
